@@ -22,6 +22,8 @@ def run(chk):
     d3_linearity(chk, repo)
     d4_runs(chk, repo)
     d5_field_diff(chk, repo)
+    cm.no_dtype_narrowing(chk, repo, "C04", "C04.D5", ["field.Field.diff"],
+                          "derivatives divide by the cell length - an integer-typed field would be truncated")
     chk.trust("np.gradient(f, dx, edge_order=2) is second-order accurate at interior and edge points (exact for polynomials of "
               "degree <= 2), edge_order=1 first-order at the edges (exact for degree <= 1) - numpy reference")
     chk.trust("np.convolve(a, k, 'same') returns the centred part of the full convolution, same length as a")
